@@ -51,6 +51,16 @@ CLAIMED = {
         "child), os._exit as process death. A write() is atomic in the model. Forked (multiprocess) savers are not covered.",
    technique="TLA+ model checking of the storage protocol + exhaustive fault injection on the real code with TLC trace validation (I-level) and TLC-evaluated P-level on observations",
    design="4/C04"),
+ "C17": dict(
+   text="spec/Intervals.tla defines containment, split-by-containment, touching windows, overlap indices, gaps, break finding, "
+        "time-to-neighbour and stable sorting by quantification over index sets, and transcribes the sweep-line loops of "
+        "_fc_in and _touching_windows; TLC checks transcription = definition on every input of the scope and prints the "
+        "expected results, which are compared with the real numba functions in both endtime encodings (unsorted inputs must "
+        "be rejected). A seeded random extension covers larger arrays.",
+   note="Trusted: TLC, JSON transport. Containment uses half-open semantics for zero-length things. Bounded: <=4 things, <=3 "
+        "containers, grid 0..6, windows -2..3.",
+   technique="TLA+ definitional oracle enumerated by TLC + replay of every case into the real functions",
+   design="4/C17"),
 }
 NOT_BUILT = "decision procedure (TLA+ module + binding) not built yet in this session; see DESIGN.md section 4 for the plan"
 
